@@ -76,7 +76,7 @@ func DecodeBitmap(img *bitmap.Image) (*QRCode, error) {
 	}
 
 	data := buf.Bytes()
-	if err := reedsolomon.Decode(data, qrCapacity.MaxError); err != nil {
+	if err := reedsolomon.Decode(data, qrCapacity.Correction); err != nil {
 		return nil, err
 	}
 	data = data[:qrCapacity.Data]
